@@ -287,7 +287,8 @@ def serAttrs (ll attrIndent : Nat) (isRoot : Bool) :
     (sep ++ a ++ '=' :: '"' :: v ++ '"' :: r.1, r.2)
 
 /-- `ALWAYS_EXPANDED_TAGS` (compared with the Clark-notation tag) -/
-def alwaysExpanded (tag : Str) : Bool := tag == "bodies".toList
+def alwaysExpandedList : List Str := ["bodies".toList]
+def alwaysExpanded (tag : Str) : Bool := alwaysExpandedList.contains tag
 
 mutual
 /-- `_serialize_element(buffer, element, indent, pos=…, line_length=ll)`.
